@@ -274,6 +274,30 @@ def head_rows_sym(rule, tables):
     return rows
 
 
+def agg_collision_goal(program, tables):
+    """Some aggregate rule has two distinct body valuations in one group that bind the aggregated variable to the
+    same value (count vs count_distinct, duplicate-sensitive sums...). Used as a solver-directed witness goal."""
+    goals = []
+    for rule in program["rules"]:
+        hargs = rule["head"][1]
+        aggs = [t for t in hargs if t[0] == "agg"]
+        if not aggs:
+            continue
+        try:
+            vals = rule_rows_sym(rule, tables)
+        except Unsupported:
+            continue
+
+        def plain(t, bind):
+            return bind[t[1]] if t[0] == "var" else (t[1] if t[0] in ("const", "sconst") else eval_expr_sym(t[1], bind))
+        keys = [[plain(t, b) for t in hargs if t[0] != "agg"] for _, b in vals]
+        for i in range(len(vals)):
+            for j in range(i):
+                same_x = AND(*[EQ(vals[i][1][t[2]], vals[j][1][t[2]]) for t in aggs])
+                goals.append(AND(vals[i][0], vals[j][0], tup_eq(keys[i], keys[j]), same_x))
+    return OR(*goals)
+
+
 def model_sym(program, edb, k):
     """Perfect model, symbolically.  Returns (tables, conv) where conv are the side conditions
     'round k+1 adds nothing' for each recursive SCC (needed for exactness)."""
